@@ -11,7 +11,7 @@ from common import *
 import model, findings as F
 from props import base
 
-PROPS_MODULES = ["ShexerModel.Props.C07", "ShexerModel.Props.GenStrCorners", "ShexerModel.Props.GenStrLiteral"]
+PROPS_MODULES = ["ShexerModel.Props.C07", "ShexerModel.Props.GenStrCorners", "ShexerModel.Props.GenStrLiteral", "ShexerModel.Props.GenStrUnprefix"]
 DEPS = ["S.remove_corners", "S.decide_literal_type"]
 replay = base.replay
 LANG_STRING = 'http://www.w3.org/1999/02/22-rdf-syntax-ns#langString'
@@ -386,7 +386,7 @@ def run(ctx):
             else:
                 viol.append({"what": "outside the dialect (%s): the reader neither raises nor yields the triples of the document" % name,
                              "doc": text, "got": r[1], "rdflib": ref})
-    base.fragment_s_tie(ctx, dis, stats, ['remove_corners', 'decide_literal_type'])
+    base.fragment_s_tie(ctx, dis, stats, ['remove_corners', 'decide_literal_type', 'unprefixize_uri_mandatory', 'unprefixize_uri_if_possible'])
     return base.std_result(ctx, [d[0] for d in docs], viol, dis, base.known_lines(kf, hit), stats, nontriv, [],
                            "documents rendered from abstract statement groups (';' and ',' abbreviations, 'a' vs rdf:type, prefixed / <absolute> / "
                            "<relative-to-@base> IRIs, blank nodes, literals with escapes and '#', ';', ',', '.' inside, language tags, datatypes as <IRI> / "
